@@ -76,6 +76,7 @@ type Exec struct {
 	inQuant  int
 	idxUses  map[string]map[string]bool
 	lookupAtEnd bool // local-variable lookup sees every definition of the block it is evaluated at
+	linking     bool
 	constGlobals map[string]bool
 }
 
@@ -109,6 +110,7 @@ type loopInfo struct {
 	spec    *LoopSpec
 	excl    map[string][]Term
 	written []string
+	needHeadExcl bool
 }
 
 func (x *Exec) emit(line string) { x.lines = append(x.lines, line) }
